@@ -394,28 +394,34 @@ impl RoundedRectangleContains {
             return false;
         }
 
+        // A point can lie in the bounding box of more than one corner if diagonally opposite
+        // corners overlap. It is only inside the rounded rectangle if it is inside all of them.
         if point.y < self.straight_rows_left.start
             && point.x < self.top_left.bounding_box().columns().end
+            && !self.top_left.contains(point)
         {
-            return self.top_left.contains(point);
+            return false;
         }
 
         if point.y < self.straight_rows_right.start
             && point.x >= self.top_right.bounding_box().columns().start
+            && !self.top_right.contains(point)
         {
-            return self.top_right.contains(point);
+            return false;
         }
 
         if point.y >= self.straight_rows_left.end
             && point.x < self.bottom_left.bounding_box().columns().end
+            && !self.bottom_left.contains(point)
         {
-            return self.bottom_left.contains(point);
+            return false;
         }
 
         if point.y >= self.straight_rows_right.end
             && point.x >= self.bottom_right.bounding_box().columns().start
+            && !self.bottom_right.contains(point)
         {
-            return self.bottom_right.contains(point);
+            return false;
         }
 
         true
